@@ -90,6 +90,21 @@ Theorem C13_merge_vocab_maps_increasing : forall glob l mp,
   Forall2 (fun h gi => 1 <= gi /\ nth_error glob (gi - 1) = Some h) l mp -> StronglySorted lt mp.
 Proof. exact map_strictly_increasing. Qed.
 
+(* The rewind window of pass 2 (normalize.cc keeps all successors of one context until the normaliser is known): if every
+   word of a listed n-gram is listed as a unigram, a context is followed by at most |union vocabulary| n-grams of the
+   union set -- and this is attained while every component vocabulary is smaller (so no per-component bound will do). *)
+Theorem C13_rewind_window_bound : forall (K : Type) (cs : list (comp K)) (k : nat),
+  words_listed K cs ->
+  max_followers K cs k <= length (union_unigrams K cs) /\
+  forall c, length (followers K cs c) <= length (union_unigrams K cs).
+Proof. intros K cs k H. split; [exact (max_followers_bound K cs k H)|intros c; exact (followers_bound K cs c H)]. Qed.
+
+Theorem C13_rewind_window_component_bound_refuted :
+  let cs := [dj 1 2; dj 3 4; dj 5 6] in
+  words_listed Z cs /\
+  max_followers Z cs 1 = 7 /\ length (union_unigrams Z cs) = 7 /\ max_comp_vocab Z cs = 3.
+Proof. exact rewind_window_component_bound_refuted. Qed.
+
 (* F10: with the exclusion rule as shipped (every model's own highest order is withheld from the back-off pass)
    two context-closed components of orders 3 and 2 give probability and back-off streams of different length:
    ReunifyBackoff aborts.  With the repaired rule the streams agree. *)
